@@ -201,10 +201,57 @@ func genericRules(w *World, r *Report, prop string) {
 	r.Rule(prop+"-G3", "the failure branch does not report success", "in the same functions: no return with a constant nil error inside the region dominated by an error's non-nil branch, except the enumerated deliberate sites", 0)
 	r.Rule(prop+"-G4", "comma-ok discipline", "in the same functions: the value of a map lookup / Load / type assertion is not indexed, dereferenced or written through where ok is known false", 0)
 	r.Rule(prop+"-G5", "no swapped arguments", "in the same functions: no call of a repository function passes two same-typed arguments whose names are each other's parameter names", 0)
+	r.Rule(prop+"-G6", "per-iteration containers are allocated per iteration", "in the same functions: a map or slice stored into an outer map / appended to an outer slice inside a loop is allocated inside that loop, so the entries of different iterations do not alias one object", 0)
 	if len(fns) == 0 {
 		r.Undecided(prop+"-G2", "anchored functions", 0, "none of the property's anchored functions resolves")
 		return
 	}
+	nG6 := 0
+	for _, root := range fns {
+		for _, fn := range familyOf(root).Funcs {
+			host := shortFn2(fn)
+			k := 0
+			eachInstr(fn, func(in ssa.Instruction) {
+				mu, ok := in.(*ssa.MapUpdate)
+				if !ok {
+					return
+				}
+				h := loopHeaderOf(mu.Block())
+				if h == nil {
+					return
+				}
+				switch mu.Value.Type().Underlying().(type) {
+				case *types.Map, *types.Slice:
+				default:
+					return
+				}
+				// the outer container must live longer than the iteration
+				if om, isMM := mu.Map.(*ssa.MakeMap); isMM && h.Dominates(om.Block()) && om.Block() != h {
+					return
+				}
+				var site ssa.Value
+				for _, x := range backSlice(mu.Value, SliceOpts{MaxDepth: 4, NoAggregates: true}) {
+					switch x.(type) {
+					case *ssa.MakeMap, *ssa.MakeSlice:
+						site = x
+					}
+				}
+				if site == nil {
+					return
+				}
+				nG6++
+				k++
+				sb := site.(ssa.Instruction).Block()
+				inside := h.Dominates(sb) && sb != h
+				// inside the loop means: on a cycle through the header
+				if inside {
+					inside = blockReach(sb, nil)[h]
+				}
+				r.Check(inside, prop+"-G6", fmt.Sprintf("%s | container stored per iteration #%d", host, k), mu.Pos(), "allocated inside the loop", "the map/slice stored for each iteration is allocated once outside the loop: every entry of the outer container is the same object, so what is recorded for one item (e.g. one collection's seek positions) is seen — and overwritten — by all the others")
+			})
+		}
+	}
+	r.OK(prop+"-G6", "census", 0, fmt.Sprintf("%d per-iteration containers inspected", nG6))
 	nTests, nOK4, nCalls := 0, 0, 0
 	for _, root := range fns {
 		fam := familyOf(root)
